@@ -53,6 +53,7 @@ class Contract:
     allocates: bool = True  # may allocate (top may grow)
     overrides: str | None = None  # qualname of the interface contract this unit must also satisfy
     witness: str | None = None  # name of a native witness builder in specs (optional)
+    consumes: list[str] = field(default_factory=list)  # iterable parameters the call iterates (one-shot ones are exhausted)
     typevars: list[str] = field(default_factory=list)  # generic kind variables (instantiated per call site)
     witnesses: dict[str, tuple] = field(default_factory=dict)  # name -> (ghost variable, kind): existential ghost lists
     native_ensures: dict[str, str | None] = field(default_factory=dict)  # label -> native variant of a clause (None: skip)
